@@ -2,11 +2,13 @@ package c18
 
 import (
 	"bytes"
+	"context"
 	"crypto/tls"
 	"crypto/x509"
 	"errors"
 	"fmt"
 	"net"
+	"os"
 	"time"
 
 	"github.com/go-openapi/runtime/client"
@@ -14,7 +16,7 @@ import (
 	"verif/mon"
 )
 
-const hsWatchdog = 5 * time.Second
+const hsWatchdog = 15 * time.Second
 
 type hsRecord struct {
 	err     error
@@ -34,6 +36,8 @@ type server struct {
 
 func (w *worker) serverConfig(kind string) (*tls.Config, *x509.Certificate) {
 	switch kind {
+	case "s0":
+		return &tls.Config{Certificates: []tls.Certificate{w.mat.srv0}, ClientAuth: tls.RequestClientCert, MinVersion: tls.VersionTLS10}, w.mat.srv0Leaf
 	case "s2":
 		return &tls.Config{Certificates: []tls.Certificate{w.mat.srv2}, ClientAuth: tls.RequestClientCert, MinVersion: tls.VersionTLS10}, w.mat.srv2Leaf
 	case "legacy":
@@ -134,15 +138,29 @@ func (w *worker) dial(s *server, cfg *tls.Config) (ok bool, cerr error, st tls.C
 
 // handshake runs a real handshake for the point against one listener and judges it against the
 // expectation computed from the option point alone.
-func (w *worker) handshake(p Point, sk string) {
+func (w *worker) handshake(p Point, sk string, reject bool) { w.handshakeAttempt(p, sk, reject, 0) }
+
+// isTimeout recognises the watchdog deadlines of either side (never an oracle input).
+func isTimeout(err error) bool {
+	if err == nil {
+		return false
+	}
+	var ne net.Error
+	return errors.Is(err, context.DeadlineExceeded) || errors.Is(err, os.ErrDeadlineExceeded) || (errors.As(err, &ne) && ne.Timeout())
+}
+
+func (w *worker) handshakeAttempt(p Point, sk string, reject bool, attempt int) {
 	m := w.m
 	s := w.srv[sk]
 	if s == nil {
 		m.Violate("bad-replay-case", "unknown listener "+sk, nil)
 		return
 	}
-	c := &Case{Point: &p, Server: sk}
+	c := &Case{Point: &p, Server: sk, Reject: reject}
 	o, h := build(p, w.mat)
+	if reject {
+		*h.verdict = errRejected
+	}
 	var cfg *tls.Config
 	var err error
 	pv, stk := mon.Catch(func() { cfg, err = client.TLSClientAuth(o) })
@@ -154,7 +172,6 @@ func (w *worker) handshake(p Point, sk string) {
 		m.Class("hs:no-config")
 		return
 	}
-	m.Eval(1)
 	e := expect(p)
 	roots := expectedPool(p, w.mat)
 	name := p.ServerName
@@ -179,17 +196,26 @@ func (w *worker) handshake(p Point, sk string) {
 		why = "untrusted-root"
 	case !e.insecure && fullErr != nil:
 		why = "name-mismatch"
-	case p.Callback == "reject":
+	case p.Callback != "" && reject:
 		why = "callback-rejects"
 	}
 	wantOK := why == ""
 
 	before := *h.cbCalls
 	ok, cerr, st, rec, watchdog := w.dial(s, cfg)
+	if !watchdog && (isTimeout(cerr) || isTimeout(rec.err)) {
+		watchdog = true
+	}
+	if watchdog && attempt == 0 {
+		m.Class("hs-watchdog-retried")
+		w.handshakeAttempt(p, sk, reject, 1)
+		return
+	}
 	if watchdog {
 		m.Class("hs-watchdog")
 		return
 	}
+	m.Eval(1)
 	cbCalled := *h.cbCalls - before
 	switch {
 	case ok && !wantOK:
